@@ -289,7 +289,15 @@ class Recorder:
         elif op == 'close':
             self.ev('api', op='close', again=self.closed)
             try:
-                await aio.async_close()
+                if st.get('deadline_ms'):
+                    # the application gives close a deadline (asyncio.wait_for): the call is cancelled half way
+                    try:
+                        await asyncio.wait_for(aio.async_close(), st['deadline_ms'] / 1000.0)
+                    except asyncio.TimeoutError:
+                        self.ev('api_ret', op='close', ok=False, cut=True, exc='TimeoutError')
+                        return
+                else:
+                    await aio.async_close()
                 self.closed = True
                 self.ev('api_ret', op='close', ok=True)
             except Exception as ex:  # noqa: BLE001
@@ -368,14 +376,22 @@ class Recorder:
         except Exception as ex:  # noqa: BLE001
             self.ev('lookup_ret', name=self.it.nb(st['name']), ok=False, exc=type(ex).__name__)
 
-    def add_listener(self) -> None:
+    def add_listener(self, raise_every: int = 0) -> None:
         from zeroconf import RecordUpdateListener
         rec = self
+        count = {'n': 0}
 
         class L(RecordUpdateListener):
             def async_update_records(self, zc: Any, now: float, records: list) -> None:
                 if records:
                     rec.ev('lcall', n=len(records))
+                    # a faulty application: the listener raises, but only on datagrams that add and remove nothing (every
+                    # record refreshes a cached one), so that the library has by then done all there is to do with it
+                    if raise_every and all(ru.old is not None and ru.new.ttl > 0 for ru in records):
+                        count['n'] += 1
+                        if count['n'] % raise_every == 0:
+                            rec.ev('uexc')
+                            raise simnet.HarnessFault('listener raises')
 
             def async_update_records_complete(self) -> None:
                 pass
@@ -409,6 +425,8 @@ class Recorder:
     async def main(self) -> None:
         net = self.net
         self.host = await net.add_host('h', '10.0.0.1', addr6='fe80::1', layout=self.sc.get('layout', 'single'))
+        net.unreachable = set(self.sc.get('unreachable', []))
+        net.on_send_failed_hook = lambda sock, data, addr: self._on_send({'dst': addr[0], 'port': addr[1], 'sock': sock.index, 'failed': True}, data)
         self.ev('start', layout=self.sc.get('layout', 'single'), nsock=len(self.host.sockets))
         for st in self.sc['steps']:
             op = st['op']
@@ -435,7 +453,7 @@ class Recorder:
             elif op == 'expect_added':
                 self.ev('expect_added', name=self.it.nb(st['name']))
             elif op == 'ladd':
-                self.add_listener()
+                self.add_listener(st.get('raise_every', 0))
             elif op == 'busy_at':
                 # loop latency: a callback that runs at instant st['when'] keeps the loop busy for st['ms'] milliseconds (the
                 # clock moves while the callbacks queued behind it are still waiting; timers that fall due meanwhile are
@@ -488,6 +506,8 @@ class Recorder:
                 extra.append({'ev': 'rand', 't': e['t'], 'site': e['site'], 'v': e['v'], 'seq': e['seq']})
             elif e['ev'] == 'tclose':
                 extra.append({'ev': 'tclose', 't': e['t'], 'sock': e['sock'], 'seq': e['seq']})
+            elif e['ev'] == 'exc' and e.get('cls') == 'HarnessFault':
+                pass            # the harness's own fault, logged as 'uexc' where it was raised
             elif e['ev'] == 'exc' and not (self.events and e['t'] > self.events[-1]['t']):
                 extra.append({'ev': 'exc', 't': e['t'], 'what': str(e.get('cls')), 'msg': str(e.get('msg')), 'seq': e['seq']})
         keyed = [(k, ev) for k, ev in zip(self._keys, self.events)] + [((x['seq'], 0, 0), x) for x in extra]
@@ -846,8 +866,17 @@ def gen_resp(rng: random.Random, sid: str, focus: str, thorough: bool = False) -
         steps += [{'op': 'at', 't': t}, {'op': 'close'}]
     t += 4000
     steps.append({'op': 'at', 't': t})
-    return {'id': sid, 'seed': rng.randint(0, 10 ** 9), 'steps': steps, 'layout': layout, 'v6src': layout == 'dual' and rng.random() < 0.6,
-            'rand': rng.choice([None, None, None, 'lo', 'hi'])}
+    if rng.random() < {'c11': 0.25, 'c12': 0.15, 'c03': 0.1}.get(focus, 0.0):
+        # a faulty application: a record listener that raises (on datagrams that only refresh what is cached, such as the
+        # loopback of the host's own answers): everything the responder does afterwards is judged as usual
+        k = next((i for i, x in enumerate(steps) if x['op'] == 'at' and x['t'] >= 500), len(steps) - 1)
+        steps.insert(k + 1, {'op': 'ladd', 'raise_every': rng.choice([1, 1, 2])})
+    sc = {'id': sid, 'seed': rng.randint(0, 10 ** 9), 'steps': steps, 'layout': layout, 'v6src': layout == 'dual' and rng.random() < 0.6,
+          'rand': rng.choice([None, None, None, 'lo', 'hi'])}
+    if rng.random() < 0.25:
+        # an off-link peer: unicast replies to it fail with ENETUNREACH (asyncio reports that to the protocol's error_received)
+        sc['unreachable'] = ['192.168.1.77', 'fd00::77']
+    return sc
 
 
 def d22_scenarios(own: str) -> List[dict]:
@@ -994,7 +1023,7 @@ def gen_c17(rng: random.Random, sid: str, thorough: bool = False) -> dict:
         extra.append(busy)
     tb = rng.randint(500, max(501, t_close))
     extra.append((tb, {'op': 'bstart', 'types': [svc0['type'], '_other._tcp.local.'], 'delay': rng.choice([1000, 10000])}))
-    extra.append((tb, {'op': 'ladd'}))
+    extra.append((tb, {'op': 'ladd', 'raise_every': rng.choice([0, 0, 0, 1, 2])}))
     for _ in range(rng.choice([0, 1, 2])):
         tl = max(0, t_close - rng.choice([1, 150, 900, 2500, 5000]))
         extra.append((tl, {'op': 'lookup', 'type': '_http._tcp.local.', 'name': rng.choice(['Remote._http._tcp.local.', svc0['name']]),
@@ -1018,7 +1047,12 @@ def gen_c17(rng: random.Random, sid: str, thorough: bool = False) -> dict:
     for (tt, s) in extra:
         merged.append((tt, k, s))
         k += 1
-    merged.append((t_close, k + 1000, {'op': 'close'}))
+    if rng.random() < 0.12:
+        # the application gives close a deadline that runs out half way (the goodbyes take 250 ms), and closes again later
+        merged.append((t_close, k + 1000, {'op': 'close', 'deadline_ms': rng.choice([1, 60, 124, 126, 200, 249])}))
+        merged.append((t_close + rng.choice([250, 300, 1000, 20000]), k + 1001, {'op': 'close'}))
+    else:
+        merged.append((t_close, k + 1000, {'op': 'close'}))
     # traffic after the close request: immediately (during the goodbyes), shortly after, and hours later
     post = []
     svcs = [s['svc'] for s in steps if s['op'] == 'reg']
